@@ -14,7 +14,7 @@ from vf.props import _single as S
 ID = "C11"
 LEVEL = "fault_enumeration"
 SHARDS = {"quick": 1, "thorough": 16}
-N_QUICK, N_THOROUGH = 400, 3000
+N_QUICK, N_THOROUGH = 250, 3000
 FAULT_KINDS = ["ProgError", "KeyboardInterrupt", "SystemExit", "ProgBaseError", "GeneratorExit", "CancelledError",
                "RecursionError"]
 EXC_KINDS = {"ProgError", "RecursionError"}  # subclasses of Exception; the rest are BaseException only
